@@ -265,7 +265,10 @@ class Indicator(_DomainObject):
             except AttributeError:
                 pat_ver = '2.1'
 
-            errors = run_validator(self.get('pattern'), pat_ver)
+            try:
+                errors = run_validator(self.get('pattern'), pat_ver)
+            except RecursionError:
+                raise InvalidValueError(self.__class__, 'pattern', "pattern is nested too deeply")
             if errors:
                 raise InvalidValueError(self.__class__, 'pattern', str(errors[0]))
 
